@@ -26,100 +26,114 @@ CLIENT = ["Boss", "Nameplate", "Mailbox", "Send", "Order", "Key", "_SortedKey", 
 CONNECTOR = "RendezvousConnector"
 APP_ATTR = "_W"             # Boss._W is the application-facing wormhole object
 OPAQUE_CLASSES = ("Dilator",)   # wired neighbours whose bodies are not interpreted here
+# attributes tracked symbolically: the stored value is kept as C(<str const>) / C("<Ctor>()") / C("<param>")
+SYMBOLIC = {("Boss", "_result"), ("Mailbox", "_mood")}
+# verdict -> mood pairing (docs/server-protocol.rst "close" moods; "unwelcome" is the client's own fifth mood)
+VERDICT_MOOD = {"happy": "happy", "LonelyError()": "lonely", "WrongPasswordError()": "scary",
+                "ServerError()": "errory", "<welcome_error>": "unwelcome"}
+OBSERVED_EXC = ("CryptoError",)
 # lists tracked precisely as bounded lists of abstract items (every other list is T): value = required?
 TRACKED_LISTS = {("Order", "_queue"): True, ("Receive", "_early_messages"): False}
 
 
 # ---------------------------------------------------------------- abstract values
-class C:
+class _Interned:
+    """abstract values are interned: equality is identity, hashing is the (C-level) identity hash"""
+    __slots__ = ()
+    _cache = {}
+
+    @classmethod
+    def _get(cls, key, build):
+        k = (cls, key)
+        o = _Interned._cache.get(k)
+        if o is None:
+            o = object.__new__(cls)
+            build(o)
+            _Interned._cache[k] = o
+        return o
+
+    def __reduce__(self):  # pragma: no cover - values never leave the process
+        raise TypeError("abstract values are not picklable")
+
+
+class C(_Interned):
     __slots__ = ("v",)
 
-    def __init__(self, v):
-        self.v = v
-
-    def __eq__(self, o):
-        return isinstance(o, C) and type(o.v) is type(self.v) and o.v == self.v
-
-    def __hash__(self):
-        return hash(("C", type(self.v).__name__, self.v))
+    def __new__(cls, v):
+        return cls._get((type(v), v), lambda o: setattr(o, "v", v))
 
     def __repr__(self):
         return "C(%r)" % (self.v,)
 
 
-class D:
-    def __init__(self, d):
-        self.d = dict(d)
-        self._h = hash(tuple(sorted(((k, v) for k, v in self.d.items()), key=repr)))
+class D(_Interned):
+    __slots__ = ("d",)
 
-    def __eq__(self, o):
-        return isinstance(o, D) and o.d == self.d
-
-    def __hash__(self):
-        return self._h
+    def __new__(cls, d):
+        d = dict(d)
+        key = tuple(sorted(d.items(), key=lambda kv: repr(kv[0])))
+        return cls._get(key, lambda o: setattr(o, "d", d))
 
     def __repr__(self):
         return "D(%s)" % (sorted(self.d.items(), key=repr),)
 
 
-class FS:
-    def __init__(self, s=()):
-        self.s = frozenset(s)
+class FS(_Interned):
+    __slots__ = ("s",)
 
-    def __eq__(self, o):
-        return isinstance(o, FS) and o.s == self.s
-
-    def __hash__(self):
-        return hash(("FS", self.s))
+    def __new__(cls, s=()):
+        s = frozenset(s)
+        return cls._get(s, lambda o: setattr(o, "s", s))
 
     def __repr__(self):
         return "FS(%s)" % (sorted(self.s, key=repr),)
 
 
-class FL:
+class FL(_Interned):
     """tracked bounded list of abstract items"""
+    __slots__ = ("items",)
 
-    def __init__(self, items=()):
-        self.items = tuple(items)
-
-    def __eq__(self, o):
-        return isinstance(o, FL) and o.items == self.items
-
-    def __hash__(self):
-        return hash(("FL", self.items))
+    def __new__(cls, items=()):
+        items = tuple(items)
+        return cls._get(items, lambda o: setattr(o, "items", items))
 
     def __repr__(self):
         return "FL(%r)" % (self.items,)
 
 
-class TUP:
-    def __init__(self, items):
-        self.items = tuple(items)
+class TUP(_Interned):
+    __slots__ = ("items",)
 
-    def __eq__(self, o):
-        return isinstance(o, TUP) and o.items == self.items
-
-    def __hash__(self):
-        return hash(("TUP", self.items))
+    def __new__(cls, items):
+        items = tuple(items)
+        return cls._get(items, lambda o: setattr(o, "items", items))
 
     def __repr__(self):
         return "TUP(%r)" % (self.items,)
 
 
-class METH:
+class METH(_Interned):
     """a bound method of a client class held in a local (getattr dispatch)"""
+    __slots__ = ("cls", "name")
 
-    def __init__(self, cls, name):
-        self.cls, self.name = cls, name
-
-    def __eq__(self, o):
-        return isinstance(o, METH) and (o.cls, o.name) == (self.cls, self.name)
-
-    def __hash__(self):
-        return hash(("METH", self.cls, self.name))
+    def __new__(cls_, cls, name):
+        def b(o):
+            o.cls, o.name = cls, name
+        return cls_._get((cls, name), b)
 
     def __repr__(self):
         return "METH(%s.%s)" % (self.cls, self.name)
+
+
+def _has_call(node):
+    r = getattr(node, "_vt_has_call", None)
+    if r is None:
+        r = any(isinstance(n, ast.Call) for n in ast.walk(node))
+        try:
+            node._vt_has_call = r
+        except AttributeError:
+            pass
+    return r
 
 
 def truth(v):
@@ -211,11 +225,14 @@ class S:
 
 
 class Ctx:
-    __slots__ = ("cls", "locs")
+    """cls: class whose method is interpreted; locs: locals; exc: names of the specific exception handlers of the
+    lexically enclosing try statements of the current function (an external call there may raise them)"""
+    __slots__ = ("cls", "locs", "exc")
 
-    def __init__(self, cls, locs):
+    def __init__(self, cls, locs, exc=()):
         self.cls = cls
         self.locs = locs
+        self.exc = exc
 
 
 def lkey(locs):
@@ -247,6 +264,7 @@ class Interp:
         self.ix = SlotIndex()
         self.app_events_seen = set()
         self.fired_rows = set()
+        self._ext_cache = {}
 
     # -- violations ------------------------------------------------------
     def add_viol(self, kind, detail, site=None):
@@ -313,8 +331,12 @@ class Interp:
                 if isinstance(n, C) and isinstance(n.v, str):
                     if n.v in ctx.cls.methods or n.v in ctx.cls.inputs:
                         return METH(ctx.cls.name, n.v)
+                    if ('a', ctx.cls.name, n.v) in st:
+                        return st[('a', ctx.cls.name, n.v)]
+                    if isinstance(e.args[1], ast.Constant):
+                        return 'U'      # a data attribute the analysis does not track: may or may not be set
                     if len(e.args) > 2:
-                        return self.ev(e.args[2], st, ctx)
+                        return self.ev(e.args[2], st, ctx)   # computed name (dispatch idiom): no such method
                 return 'U'
             if isinstance(f, ast.Attribute) and f.attr == "search" and isinstance(f.value, ast.Name) \
                     and f.value.id == "re" and len(e.args) == 2:
@@ -397,10 +419,16 @@ class Interp:
         return (None, None, None)
 
     def contains_external_call(self, node, ctx):
-        for n in ast.walk(node):
-            if isinstance(n, ast.Call) and self.resolve(n, ctx)[0] is None:
-                return True
-        return False
+        key = (id(node), ctx.cls.name)
+        r = self._ext_cache.get(key)
+        if r is None:
+            r = False
+            for n in ast.walk(node):
+                if isinstance(n, ast.Call) and (isinstance(n.func, ast.Name) or self.resolve(n, ctx)[0] is None):
+                    r = True
+                    break
+            self._ext_cache[key] = r
+        return r
 
     # -- application events ----------------------------------------------
     def app_event(self, name, st):
@@ -481,6 +509,21 @@ class Interp:
                         st[('e', 'bound')] = 'T'
                     elif st.get(('e', 'bound')) != 'T':
                         self.add_viol("tx-before-bind", t)
+                    if t == "close":
+                        # C08: the mood sent with `close` matches the verdict the application will get
+                        mood = kwvals.get("mood")
+                        res = st.get(('a', 'Boss', '_result'))
+                        want = VERDICT_MOOD.get(res.v) if isinstance(res, C) else None
+                        if mood == 'T' and res == 'T':
+                            pass    # pairing already verified when `close` was first sent
+                        elif not (isinstance(mood, C) and isinstance(mood.v, str)):
+                            self.add_viol("mood", "mailbox closed with a mood the analysis cannot name (%r)" % (mood,))
+                        elif want is not None and mood.v != want:
+                            self.add_viol("mood", "mailbox closed with mood %r while the verdict is %s" % (mood.v, res.v))
+                        elif want is not None:
+                            # pairing verified: forget the concrete values (merges the closing states)
+                            st[('a', 'Boss', '_result')] = 'T'
+                            st[('a', 'Mailbox', '_mood')] = 'T'
                 else:
                     raise AnalysisError("RendezvousConnector._tx called with a non-constant message type "
                                         "(stack %s)" % " > ".join(self.stack[-3:]))
@@ -565,6 +608,9 @@ class Interp:
             self.fired_rows.add((cls.name, cur, inp))
             st = st.cp()
             st[('m', cls.name)] = row.enter
+            if cls.name == "_SortedKey" and inp == "got_pake_bad" \
+                    and st.get(('a', 'Boss', '_result')) == C("empty"):
+                st[('e', 'pake_bad')] = 'T'
             cur_states = [(st, None, 'U')]
             first = True
             for o in row.outputs:
@@ -621,14 +667,13 @@ class Interp:
                 else:
                     res.extend(self.do_call(e, s, ctx, av, kv))
             return res
-        has_call = any(isinstance(n, ast.Call) for n in ast.walk(e))
-        if not has_call:
+        if not _has_call(e):
             return [(st, self.ev(e, st, ctx), None)]
         if isinstance(e, (ast.Lambda, ast.GeneratorExp, ast.ListComp, ast.SetComp, ast.DictComp)):
             return [(st, 'U', None)]
         states = [(st, None)]
         for c in ast.iter_child_nodes(e):
-            if any(isinstance(n, ast.Call) for n in ast.walk(c)):
+            if _has_call(c):
                 nxt = []
                 for (s, o) in states:
                     if o:
@@ -661,10 +706,50 @@ class Interp:
                 if out:
                     nxt[(s.key(), lkey(locs), out)] = (s, locs, out)
                     continue
-                for (s2, l2, o2) in self.run_stmt(stmt, s, Ctx(ctx.cls, locs)):
+                for (s2, l2, o2) in self.run_stmt(stmt, s, Ctx(ctx.cls, locs, ctx.exc)):
                     nxt[(s2.key(), lkey(l2), o2)] = (s2, l2, o2)
             cur = list(nxt.values())
         return cur
+
+    @staticmethod
+    def _symbolic(node, v):
+        if isinstance(v, C) and isinstance(v.v, str):
+            return v
+        if isinstance(node, ast.Constant) and isinstance(node.value, str):
+            return C(node.value)
+        if isinstance(node, ast.Call):
+            f = node.func
+            name = f.id if isinstance(f, ast.Name) else (f.attr if isinstance(f, ast.Attribute) else None)
+            if name:
+                return C(name + "()")
+        if isinstance(node, ast.Name):
+            return C("<%s>" % node.id)
+        return 'U'
+
+    def _check_verdict(self, sym, st, ctx, stmt):
+        """C08.R2 in the product: the verdict stored in Boss._result must match what has been observed"""
+        if not isinstance(sym, C):
+            self.add_viol("verdict", "Boss._result is assigned a value the analysis cannot name (%s)" % ast.unparse(stmt.value),
+                          site="%s:%d" % (ctx.cls.file, stmt.lineno))
+            return
+        g = lambda k: st.get(('e', k), 'F')
+        good = g('noexc_CryptoError') == 'T'
+        bad = g('exc_CryptoError') == 'T' or g('pake_bad') == 'T'
+        top = self.stack[0] if self.stack else ""
+        v = sym.v
+        where = "%s:%d" % (ctx.cls.file, stmt.lineno)
+        if v == "happy" and not good:
+            self.add_viol("verdict", "'happy' without any peer message having decrypted", site=where)
+        elif v == "LonelyError()" and (good or bad):
+            self.add_viol("verdict", "LonelyError although a peer message was %s" % ("decrypted" if good else "undecryptable"), site=where)
+        elif v == "WrongPasswordError()" and not bad:
+            self.add_viol("verdict", "WrongPasswordError without an undecryptable peer message / unusable PAKE", site=where)
+        elif v == "ServerError()" and not top.startswith("srv.error"):
+            self.add_viol("verdict", "ServerError outside the handling of a server `error` message (in %s)" % top, site=where)
+        elif v == "<welcome_error>" and not top.startswith("srv.welcome-error"):
+            self.add_viol("verdict", "WelcomeError outside the handling of an error welcome (in %s)" % top, site=where)
+        elif v not in VERDICT_MOOD and v not in ("<err>", "empty"):
+            self.add_viol("verdict", "unknown verdict %s stored in Boss._result" % v, site=where)
 
     def _assign_attr(self, s2, cls, attr, v):
         k = ('a', cls.name, attr)
@@ -699,6 +784,26 @@ class Interp:
                         st = st.cp()
                         st[('a', ctx.cls.name, a.attr)] = 'U'
             return [(st, locs, None)]
+        if ctx.exc and isinstance(stmt, (ast.Expr, ast.Assign, ast.AugAssign, ast.AnnAssign, ast.Return)) \
+                and self.contains_external_call(stmt, ctx):
+            # an external call lexically inside a try with specific handlers may raise those exceptions
+            observe = [n for n in ctx.exc if n in OBSERVED_EXC and st.get(('a', 'Boss', '_result')) == C("empty")]
+            forks = []
+            for n in ctx.exc:
+                sx = st
+                if n in observe:
+                    sx = st.cp()
+                    sx[('e', 'exc_' + n)] = 'T'
+                forks.append((sx, locs, ('raise', n)))
+            if observe:
+                st = st.cp()
+                for n in observe:
+                    st[('e', 'noexc_' + n)] = 'T'
+            return forks + self._run_simple(stmt, st, ctx)
+        return self._run_simple(stmt, st, ctx)
+
+    def _run_simple(self, stmt, st, ctx):
+        locs = ctx.locs
         if isinstance(stmt, ast.Expr):
             return [(s, locs, o) for (s, v, o) in self.eval_expr(stmt.value, st, ctx)]
         if isinstance(stmt, ast.Return):
@@ -753,7 +858,17 @@ class Interp:
                     if isinstance(t, ast.Name):
                         l2[t.id] = v
                     elif isinstance(t, ast.Attribute) and isinstance(t.value, ast.Name) and t.value.id == "self":
-                        s2 = self._assign_attr(s2, ctx.cls, t.attr, v)
+                        if (ctx.cls.name, t.attr) in SYMBOLIC and ('a', ctx.cls.name, t.attr) in s2:
+                            sym = self._symbolic(stmt.value, v)
+                            s2 = s2.cp()
+                            s2[('a', ctx.cls.name, t.attr)] = sym
+                            if (ctx.cls.name, t.attr) == ("Boss", "_result"):
+                                self._check_verdict(sym, s2, ctx, stmt)
+                                for fl in ('noexc_CryptoError', 'exc_CryptoError', 'pake_bad'):
+                                    if s2.get(('e', fl)) == 'T':
+                                        s2[('e', fl)] = 'F'
+                        else:
+                            s2 = self._assign_attr(s2, ctx.cls, t.attr, v)
                     elif isinstance(t, (ast.Tuple, ast.List)):
                         if isinstance(v, TUP) and len(v.items) == len(t.elts):
                             for el, item in zip(t.elts, v.items):
@@ -814,7 +929,7 @@ class Interp:
                             for n in ast.walk(stmt.target):
                                 if isinstance(n, ast.Name):
                                     l_in[n.id] = 'U'
-                        for (s2, l2, o2) in self.run_block(stmt.body, s, Ctx(ctx.cls, l_in)):
+                        for (s2, l2, o2) in self.run_block(stmt.body, s, Ctx(ctx.cls, l_in, ctx.exc)):
                             if o2 and o2[0] == 'break':
                                 nxt.append((s2, l2, ('brk',)))
                             elif o2 and o2[0] == 'continue':
@@ -827,7 +942,7 @@ class Interp:
                     if o and o[0] == 'brk':
                         out.append((s, l, None))
                     elif o is None and stmt.orelse:
-                        out.extend(self.run_block(stmt.orelse, s, Ctx(ctx.cls, l)))
+                        out.extend(self.run_block(stmt.orelse, s, Ctx(ctx.cls, l, ctx.exc)))
                     else:
                         out.append((s, l, o))
                 return out
@@ -841,7 +956,7 @@ class Interp:
                 if n_iter > 20000:
                     raise AnalysisError("loop fixpoint did not converge in %s" % (self.stack[-1] if self.stack else "?"))
                 s, l = work.pop()
-                c2 = Ctx(ctx.cls, l)
+                c2 = Ctx(ctx.cls, l, ctx.exc)
                 if isinstance(stmt, ast.While):
                     tests = self.eval_expr(stmt.test, s, c2)
                 else:
@@ -859,7 +974,7 @@ class Interp:
                             for n in ast.walk(stmt.target):
                                 if isinstance(n, ast.Name):
                                     l_in[n.id] = 'U'
-                        for (s2, l2, o2) in self.run_block(stmt.body, s, Ctx(ctx.cls, l_in)):
+                        for (s2, l2, o2) in self.run_block(stmt.body, s, Ctx(ctx.cls, l_in, ctx.exc)):
                             if o2 and o2[0] == 'break':
                                 exits.append((s2, l2, None))
                             elif o2 and o2[0] in ('return', 'raise'):
@@ -882,7 +997,7 @@ class Interp:
                     if o:
                         nxt.append((s, l, o))
                         continue
-                    for (s2, v, o2) in self.eval_expr(it.context_expr, s, Ctx(ctx.cls, l)):
+                    for (s2, v, o2) in self.eval_expr(it.context_expr, s, Ctx(ctx.cls, l, ctx.exc)):
                         l2 = l
                         if it.optional_vars is not None and isinstance(it.optional_vars, ast.Name):
                             l2 = dict(l)
@@ -894,7 +1009,7 @@ class Interp:
                 if o:
                     out.append((s, l, o))
                 else:
-                    out.extend(self.run_block(stmt.body, s, Ctx(ctx.cls, l)))
+                    out.extend(self.run_block(stmt.body, s, Ctx(ctx.cls, l, ctx.exc)))
             return out
         if isinstance(stmt, ast.Try):
             specific = []
@@ -902,18 +1017,8 @@ class Interp:
                 for n in self.handler_names(h):
                     if n not in ("*", "Exception", "BaseException"):
                         specific.append(n)
-            cur = [(st, locs, None)]
-            for b in stmt.body:
-                nxt = []
-                for (s, l, o) in cur:
-                    if o:
-                        nxt.append((s, l, o))
-                        continue
-                    if specific and self.contains_external_call(b, Ctx(ctx.cls, l)):
-                        for n in specific:
-                            nxt.append((s, l, ('raise', n)))
-                    nxt.extend(self.run_stmt(b, s, Ctx(ctx.cls, l)))
-                cur = nxt
+            inner_exc = tuple(specific) + tuple(x for x in ctx.exc if x not in specific)
+            cur = self.run_block(stmt.body, st, Ctx(ctx.cls, locs, inner_exc))
             res = []
             for (s, l, o) in cur:
                 if o and o[0] == 'raise':
@@ -926,20 +1031,20 @@ class Interp:
                                 l2['__caught_as__'] = h.name
                             self.stack.append("except %s" % "/".join(self.handler_names(h)))
                             try:
-                                res.extend(self.run_block(h.body, s, Ctx(ctx.cls, l2)))
+                                res.extend(self.run_block(h.body, s, Ctx(ctx.cls, l2, ctx.exc)))
                             finally:
                                 self.stack.pop()
                             break
                     else:
                         res.append((s, l, o))
                 elif o is None:
-                    res.extend(self.run_block(stmt.orelse, s, Ctx(ctx.cls, l)))
+                    res.extend(self.run_block(stmt.orelse, s, Ctx(ctx.cls, l, ctx.exc)))
                 else:
                     res.append((s, l, o))
             if stmt.finalbody:
                 out = []
                 for (s, l, o) in res:
-                    for (s2, l2, o2) in self.run_block(stmt.finalbody, s, Ctx(ctx.cls, l)):
+                    for (s2, l2, o2) in self.run_block(stmt.finalbody, s, Ctx(ctx.cls, l, ctx.exc)):
                         out.append((s2, l2, o2 or o))
                 res = out
             return res
@@ -968,9 +1073,15 @@ class Interp:
                                 st[('a', cname, t.attr)] = FS()
                             elif isinstance(n.value, ast.List) and not n.value.elts and (cname, t.attr) in TRACKED_LISTS:
                                 st[('a', cname, t.attr)] = FL(())
+                            elif (cname, t.attr) in SYMBOLIC and isinstance(n.value, ast.Constant) \
+                                    and isinstance(n.value.value, str):
+                                st[('a', cname, t.attr)] = C(n.value.value)
             # attrs fields named _side are all wired to the one Boss._side (discharged by C02.R3)
             if "_side" in c.attr_fields:
                 st[('a', cname, "_side")] = C("SIDE-OURS")
+        for (cn, at) in SYMBOLIC:
+            if ('a', cn, at) not in st:
+                st[('a', cn, at)] = C(None)
         for (cn, at), required in TRACKED_LISTS.items():
             if required and ('a', cn, at) not in st:
                 raise AnchorMissing("%s.%s is no longer initialised to [] in the constructor" % (cn, at))
@@ -1033,6 +1144,13 @@ class Explorer:
         if not need <= have:
             raise AnchorMissing("RendezvousConnector response handlers missing: %s" % sorted(need - have))
         self.unknown_handlers = sorted(have - need)
+        # Boss states from which no application delivery happens any more: every state that declares
+        # `close` as a self-loop without outputs (closing) or is terminal (closed)
+        self.closing_states = {st for st in self.B.states
+                               if (self.B.row(st, "close") is not None and self.B.row(st, "close").enter == st
+                                   and not self.B.row(st, "close").outputs) or self.B.states[st]["terminal"]}
+        if not self.closing_states:
+            raise AnchorMissing("Boss has no closing/closed state (close self-loop without outputs)")
 
     # -- helpers -----------------------------------------------------------
     @staticmethod
@@ -1103,7 +1221,9 @@ class Explorer:
         if ws == 'T' and not stopping:
             evs.append(("ws_close", lambda s: [self.clear_pend(x) for x in self.top(
                 I.run_method(RC, "ws_close", s, {}))]))
-            evs.append(("srv.welcome", lambda s: self.server_msg(s, "welcome", {"welcome": 'U'})))
+            evs.append(("srv.welcome", lambda s: self.server_msg(s, "welcome", {"welcome": D({"motd": 'T'})})))
+            evs.append(("srv.welcome-error", lambda s: self.server_msg(
+                s, "welcome", {"welcome": D({"error": 'T'})})))
             evs.append(("srv.error", lambda s: self.server_msg(s, "error", {"error": 'T', "orig": 'T'})))
             evs.append(("srv.ack", lambda s: self.server_msg(s, "ack", {})))
             for t, h, f in (("claim", "claimed", {"mailbox": 'T'}), ("release", "released", {}),
@@ -1167,6 +1287,14 @@ class Explorer:
                 for s2 in succ:
                     if s2.get(('e', 'failed')) == 'T':
                         continue
+                    if name in POST_CLOSING and s2[('m', 'Boss')] not in self.closing_states:
+                        I.stack[:] = [name]
+                        n0 = len(I.viol)
+                        I.add_viol("ignored", "%s leaves the Boss in %s (not closing)" % (name, s2[('m', 'Boss')]))
+                        if len(I.viol) > n0:
+                            kk = list(I.viol)[-1]
+                            I.viol[kk].state_key = s.key()
+                            I.viol[kk].event = name
                     ntrans += 1
                     k = s2.key()
                     edges[s.key()].add(k)
@@ -1241,6 +1369,10 @@ class Explorer:
         r.closed_states = sum(1 for k in r.seen if r.states[k].get(('e', 'app_closed')) == 'T')
         for v in r.viol.values():
             v.path = self.path(r, v.state_key) + [v.event] if v.state_key is not None else []
+
+
+# events after which the wormhole must be closing or closed (C08: the server said so / the application said so)
+POST_CLOSING = ("srv.error", "srv.welcome-error", "api.close")
 
 
 ENVS = {
